@@ -138,11 +138,20 @@ var commonClasses = []int{1, 1, 1, 1, 3, 4, 255, 0, 2, 65535}
 
 func pick(r *rng, xs []int) int { return xs[r.intn(len(xs))] }
 
+var ecsHeavy bool
+
 func randOpts(r *rng) []opt {
 	var opts []opt
 	n := r.intn(5)
+	if ecsHeavy {
+		n = r.rng(1, 6)
+	}
 	for i := 0; i < n; i++ {
-		switch r.intn(8) {
+		k := r.intn(8)
+		if ecsHeavy && r.coin(50) {
+			k = r.intn(3)
+		}
+		switch k {
 		case 0: // ECS v4/32
 			d := []byte{0, 1, 32, 0}
 			d = append(d, r.bytes(4)...)
